@@ -1081,6 +1081,10 @@ def _process_add_event_tick(
     for step_name, step_config in state.config.steps.items():
         wait_conditions = state.workers[step_name].collected_waiters
         for wait_condition in wait_conditions:
+            if wait_condition.resolved_event is not None or wait_condition.timed_out:
+                # This wait already has its outcome and the step was re-queued to
+                # consume it; a further event must not wake the step again.
+                continue
             is_match = type(tick.event) is wait_condition.waiting_for_event
             is_match = is_match and all(
                 getattr(tick.event, k, None) == v
